@@ -38,6 +38,15 @@ ENTRIES = ('select', 'select', 'select', 'iselect', 'select_one', 'match', 'matc
 def gen_workload(rng, mode):
     nspecs = rng.randint(2, 4)
     specs = [gen.gen_doc(rng, max_size=rng.choice([12, 25, 40]), odd=0.12) for _ in range(nspecs)]
+    # same-shape variants: parsed into the memory a dropped document just released, they get the same node addresses
+    variants = {}
+    for si in range(nspecs):
+        if rng.random() < 0.6:
+            v = gen.variant_spec(rng, specs[si])
+            if v is not None:
+                specs.append(v)
+                variants[si] = len(specs) - 1
+                variants[len(specs) - 1] = si
     nslots = rng.choice([1, 1, 2, 2, 3])
     slots = [rng.randrange(nspecs) for _ in range(nslots)]
     keys = []
@@ -52,6 +61,23 @@ def gen_workload(rng, mode):
         else:
             keys.append(gen.gen_key(rng, selgen_kw={'simple': True, 'stateful_bias': 0.7, 'invalid': 0.04,
                                                      'lexical': 0.05}, ns_bias=0.2, custom_bias=0.15))
+    # align the selector pool with what the documents of this run contain, and remember one "anchor" query per
+    # aligned selector: a whole-document select whose membership is compared element by element (O2)
+    anchors = []
+    for si, sp in enumerate(specs):
+        for feat in gen.markup_features(sp['markup']):
+            if rng.random() < 0.6:
+                keys.append({'pattern': rng.choice(gen.FEATURE_POOLS[feat]), 'ns': None, 'custom': None, 'flags': 0,
+                             'uses_scope': False, 'special': 0})
+                anchors.append((si, len(keys) - 1))
+    if any(sp['parser'] == 'xml' or sp['markup'].startswith('<?xml') for sp in specs):
+        for _ in range(rng.randint(1, 4)):
+            pat, ns = rng.choice(gen.XML_STATEFUL_POOL)
+            keys.append({'pattern': pat, 'ns': ns, 'custom': None, 'flags': 0, 'uses_scope': False, 'special': 0})
+    if any(sp.get('detach') is not None for sp in specs):
+        for _ in range(rng.randint(1, 3)):
+            keys.append({'pattern': rng.choice(gen.ROOT_NTH_POOL), 'ns': None, 'custom': None, 'flags': 0,
+                         'uses_scope': False, 'special': 1})
     history = []
     cur = list(slots)
     gens = []       # open generator ids
@@ -63,8 +89,10 @@ def gen_workload(rng, mode):
         if r < 0.50 or not history:
             op = _gen_call(rng, keys, cur, specs)
             if mode == 'faults' and rng.random() < 0.2:
-                op['fault'] = [rng.randint(1, 600), rng.choice(['MemoryError', 'MemoryError', 'KeyboardInterrupt',
-                                                                 'RuntimeError'])]
+                # the step is a fraction of the call's own length (measured in the reference pass), so the
+                # exception lands inside the call rather than after it
+                op['fault'] = [round(rng.random(), 4), rng.choice(['MemoryError', 'MemoryError', 'KeyboardInterrupt',
+                                                                    'RuntimeError'])]
             history.append(op)
             calls.append(len(history) - 1)
         elif r < 0.58 and calls:
@@ -88,7 +116,7 @@ def gen_workload(rng, mode):
             g = rng.choice(gens)
             op = {'op': 'gen_next', 'g': g, 'n': rng.choice([1, 1, 1, 2, 3])}
             if mode == 'faults' and rng.random() < 0.1:
-                op['fault'] = [rng.randint(1, 200), 'MemoryError']
+                op['fault'] = [rng.randint(1, 120), 'MemoryError']
             history.append(op)
         elif r < 0.90 and gens:
             g = rng.choice(gens)
@@ -96,10 +124,28 @@ def gen_workload(rng, mode):
             history.append({'op': rng.choice(['gen_close', 'gen_drain', 'gen_abandon']), 'g': g})
         elif r < 0.96 and mode != 'nochurn':
             s = rng.randrange(len(cur))
-            cur[s] = rng.randrange(nspecs)
+            if cur[s] in variants and rng.random() < 0.6:
+                cur[s] = variants[cur[s]]
+            else:
+                cur[s] = rng.randrange(len(specs))
             history.append({'op': 'churn', 'doc': s, 'spec': cur[s]})
+            if calls and rng.random() < 0.7:
+                # ask again what was asked before the document was replaced
+                prev = [c for c in calls if history[c].get('doc') == s]
+                if prev:
+                    op = dict(history[rng.choice(prev)])
+                    op.pop('fault', None)
+                    history.append(op)
         else:
             history.append({'op': 'purge'})
+        if anchors and rng.random() < 0.25:
+            si, k = anchors[rng.randrange(len(anchors))]
+            where = [s for s, sidx in enumerate(cur) if sidx == si]
+            if where:
+                history.append({'op': 'call', 'entry': rng.choice(['select', 'select', 'iselect', 'filter', 'closest']),
+                                'key': k, 'doc': rng.choice(where), 'target': -1 if rng.random() < 0.8 else rng.randint(0, 60),
+                                'form': rng.choice(['module', 'compiled', 'precompiled']), 'limit': 0, 'o2': True})
+                calls.append(len(history) - 1)
     return {'mode': mode, 'specs': specs, 'slots': slots, 'keys': keys, 'history': history}
 
 
@@ -268,14 +314,29 @@ def execute(sv, w, o2_seed=0, o2_rate=0.35):
             need.setdefault(_call_key(c, plan[i]), (c, plan[i]))
     order = sorted(need, key=lambda k: fp.h((o2_seed, k)))
     ref = {}
+    ref_len = {}
+    faulted_keys = {_call_key(op, plan[i]) for i, op in enumerate(history) if op['op'] == 'call' and op.get('fault')}
     try:
         with env.wall_guard(20.0):
             for ck in order:
                 op, ss = need[ck]
                 env.canonical_state(sv)
                 ctx = _ref_ctx(sv, w, ss, _needed_slots(op))
+                if ck in faulted_keys:
+                    # measure the call's length in steps (warm pattern cache, as it mostly is in the history)
+                    ops.safe_run(ctx, _as_call(op))
+                    cnt = FaultTracer(prefix, -1, 'MemoryError')
+                    sys.settrace(cnt.glob)
+                    try:
+                        ref[ck] = ops.safe_run(ctx, _as_call(op))
+                    finally:
+                        sys.settrace(None)
+                    ref_len[ck] = cnt.n
+                    env.canonical_state(sv)
+                    ctx = _ref_ctx(sv, w, ss, _needed_slots(op))
                 ref[ck] = ops.safe_run(ctx, _as_call(op))
     except env.SlowOperation:
+        sys.settrace(None)
         return {'discarded': 'slow-operation-in-reference-pass'}
     probe('reference_calls', len(ref))
 
@@ -319,6 +380,10 @@ def execute(sv, w, o2_seed=0, o2_rate=0.35):
             ck = _call_key(op, ss)
             fault = op.get('fault')
             if fault:
+                at = fault[0]
+                if isinstance(at, float):
+                    at = 1 + int(at * max(1, ref_len.get(ck, 50)))
+                fault = [at, fault[1]]
                 tr = FaultTracer(prefix, fault[0], fault[1])
                 sys.settrace(tr.glob)
                 try:
@@ -358,7 +423,7 @@ def execute(sv, w, o2_seed=0, o2_rate=0.35):
                     probe('call_nonempty')
             # O2: element alone
             if violation is None and out[0] in ('els', 'el') and not op.get('items'):
-                if o2rng.random() < o2_rate:
+                if op.get('o2') or o2rng.random() < o2_rate:
                     _o2(sv, w, ss, op, out, violate, probe, i)
         elif kind == 'gen_start':
             call = _as_call(op)
@@ -655,36 +720,42 @@ def run_chunk(task, agg):
     sys.unraisablehook = _quiet_unraisable
     sv = env.load_soupsieve(cache_bound=cfg['bound'])
     for i in task['indices']:
-        seed = runner.derive_seed(task['verif_seed'], PROP, cfg['name'], i)
-        res = run_seeded(sv, seed, cfg['mode'])
-        if res.get('discarded'):
-            agg.count('discarded:' + res['discarded'])
-            agg.digests[f"{cfg['name']}:{i}"] = 'discarded'
-            continue
-        agg.runs += 1
-        agg.digests[f"{cfg['name']}:{i}"] = res['digest']
-        agg.count('steps', res['nsteps'])
-        agg.count('mode:' + cfg['mode'])
-        agg.count('bound:%s' % cfg['bound'])
-        for k, v in res['probes'].items():
-            agg.count('probe:' + k, v)
-            agg.count('runs_with:' + k)
-        if res['nontrivial']:
-            agg.add_to_set('sigs', res['sig'])
-        if len(agg.samples) < 2 and res['nontrivial']:
-            w = res['workload']
-            agg.samples.append({
-                'config': cfg['name'], 'index': i, 'run_seed': seed,
-                'documents': [{'parser': s['parser'], 'markup_head': s['markup'][:160], 'len': len(s['markup'])}
-                              for s in w['specs']],
-                'slots': w['slots'], 'selectors': [k['pattern'] for k in w['keys']],
-                'history_head': w['history'][:14], 'n_steps': len(w['history']), 'digest': res['digest'],
-            })
-        if res['violation']:
-            rec = make_record(res, cfg, i)
-            agg.violations.append(rec)
-            # a tree that mutates documents or leaks state may have damaged process-wide structures
-            sv = env.load_soupsieve(cache_bound=cfg['bound'])
+        agg.merge(runner.isolated(_one_run, sv, task['verif_seed'], cfg, i, len(agg.samples)))
+
+
+def _one_run(sv, verif_seed, cfg, i, nsamples):
+    """One seeded run, in a forked child (see runner.isolated); returns a small Agg."""
+
+    from sim import runner
+    agg = runner.Agg()
+    seed = runner.derive_seed(verif_seed, PROP, cfg['name'], i)
+    res = run_seeded(sv, seed, cfg['mode'])
+    if res.get('discarded'):
+        agg.count('discarded:' + res['discarded'])
+        agg.digests[f"{cfg['name']}:{i}"] = 'discarded'
+        return agg
+    agg.runs += 1
+    agg.digests[f"{cfg['name']}:{i}"] = res['digest']
+    agg.count('steps', res['nsteps'])
+    agg.count('mode:' + cfg['mode'])
+    agg.count('bound:%s' % cfg['bound'])
+    for k, v in res['probes'].items():
+        agg.count('probe:' + k, v)
+        agg.count('runs_with:' + k)
+    if res['nontrivial']:
+        agg.add_to_set('sigs', res['sig'])
+    if nsamples < 2 and res['nontrivial']:
+        w = res['workload']
+        agg.samples.append({
+            'config': cfg['name'], 'index': i, 'run_seed': seed,
+            'documents': [{'parser': s['parser'], 'markup_head': s['markup'][:160], 'len': len(s['markup'])}
+                          for s in w['specs']],
+            'slots': w['slots'], 'selectors': [k['pattern'] for k in w['keys']],
+            'history_head': w['history'][:14], 'n_steps': len(w['history']), 'digest': res['digest'],
+        })
+    if res['violation']:
+        agg.violations.append(make_record(res, cfg, i))
+    return agg
 
 
 def replay_record(rec):
@@ -769,13 +840,13 @@ def minimise_record(sv, rec, budget_n=400, wall_s=150.0):
         if time.time() > t_end:
             b.left = 0
             return False
+        from sim import runner
         try:
-            res = replay(state['sv'], cand)
+            res = runner.isolated(replay, state['sv'], cand)
         except Exception:  # noqa: BLE001 - an edited record may be ill-formed
             return False
         if res.get('discarded') or not res['violation']:
             return False
-        state['sv'] = env.load_soupsieve(cache_bound=rec.get('bound'))
         new = make_record(res, cand.get('config'), cand.get('index'))
         new['run_seed'] = cand.get('run_seed')
         new['bound'] = rec.get('bound')
